@@ -105,7 +105,7 @@ func runRace(rep *ev.Report, reps int) (int, int, bool) {
 		}
 		fn := firstRepoFunc(txt[i:])
 		rep.Add(&ev.Violation{Engine: "clustermc/race", Kind: "fatal", Cmd: "race-pass", Shape: line, Func: fn,
-			Detail:  fmt.Sprintf("free-running pass, 3 concurrent clients on one cluster node: %s (in %s): the node process dies", line, fn),
+			Detail: fmt.Sprintf("free-running pass, 3 concurrent clients on one cluster node: %s (in %s): the node process dies", line, fn),
 			Replay: map[string]interface{}{"engine": "clustermc", "mode": "race"}})
 	}
 	for _, blk := range strings.Split(txt, "WARNING: DATA RACE")[1:] {
